@@ -1,3 +1,96 @@
-(* C16 — produce requests respect the size and count limits, and flush on time. (theorems follow) *)
+(* C16 — produce requests respect the size and count limits, and flush on time.
+   Property statements only; each is closed by [exact] of a lemma proved in C16/Proofs*.v.
+   [run c binit evs] is the broker worker (brokerProducer.run) on an arbitrary sequence of events (message arrivals
+   with arbitrary sizes, timer, hand-off to the bridge, responses dropping partitions); events that are not enabled in
+   the current state cannot happen and are skipped.  [Sent set] is a buffer handed to the bridge (= one produce request). *)
 From Coq Require Import List ZArith.
-From SV Require Import C16.Model.
+From SV Require Import Gen.GoInt Gen.DecTypes Gen.DecC16 C16.Model C16.Proofs C16.ProofsTie.
+Import ListNotations.
+Open Scope Z_scope.
+
+(* No produce request carries more messages than Flush.MaxMessages (when set). *)
+Theorem c16_count_limit : forall c evs set, evs_wf evs -> In (Sent set) (snd (run c binit evs)) ->
+  c_max_messages c > 0 -> total_msgs set <= c_max_messages c.
+Proof. exact count_limit. Qed.
+Print Assumptions c16_count_limit.
+
+(* No per-partition batch of two or more messages carries MaxMessageBytes or more key+value bytes. *)
+Theorem c16_batch_bytes : forall c evs set k p, evs_wf evs -> In (Sent set) (snd (run c binit evs)) ->
+  In (k, p) (s_parts set) -> (2 <= length (ps_msgs p))%nat -> pset_kv p < c_max_message_bytes c.
+Proof. exact batch_bytes. Qed.
+Print Assumptions c16_batch_bytes.
+
+(* Both, as the executable predicate the correspondence evaluates on measured requests. *)
+Theorem c16_sent_ok : forall c evs set, evs_wf evs -> In (Sent set) (snd (run c binit evs)) -> sent_ok c set = true.
+Proof. exact sent_sets_ok. Qed.
+Print Assumptions c16_sent_ok.
+
+(* encode() writes nothing longer than MaxRequestSize. *)
+Theorem c16_wire_limit : forall c len,
+  (forall l, send_request c len = Written l -> l = len /\ 0 <= l <= c_max_request_size c) /\
+  (len > c_max_request_size c -> send_request c len = EncodeFailed).
+Proof. exact wire_limit. Qed.
+Print Assumptions c16_wire_limit.
+
+(* A message whose size estimate exceeds MaxMessageBytes is not forwarded by the dispatcher ... *)
+Theorem c16_oversize_rejected : forall c m,
+  (byte_size (msg_version c) m > c_max_message_bytes c -> dispatcher_check c m <> DForward) /\
+  (dispatcher_check c m = DForward -> byte_size (msg_version c) m <= c_max_message_bytes c) /\
+  (dispatcher_check c m = DRejectTooLarge -> byte_size (msg_version c) m > c_max_message_bytes c).
+Proof. exact oversize_rejected. Qed.
+Print Assumptions c16_oversize_rejected.
+
+(* ... and a worker fed with forwarded messages only never sends anything else. *)
+Theorem c16_only_forwarded_sent : forall c evs set k p m,
+  Forall (ev_ok (fun m => msg_wf m /\ dispatcher_check c m = DForward)) evs ->
+  In (Sent set) (snd (run c binit evs)) -> In (k, p) (s_parts set) -> In m (ps_msgs p) ->
+  dispatcher_check c m = DForward /\ byte_size (msg_version c) m <= c_max_message_bytes c.
+Proof. exact only_forwarded_sent. Qed.
+Print Assumptions c16_only_forwarded_sent.
+
+(* Flush on time, as enabledness: after any event sequence, if the buffer is non-empty then (1) whenever a configured
+   trigger holds — or none is configured, or the timer has fired — the hand-off is enabled without further input;
+   (2) with a flush frequency, the hand-off is enabled or the timer is armed and its firing enables the hand-off. *)
+Theorem c16_flush_enabled : forall c evs, evs_wf evs ->
+  let s := fst (run c binit evs) in
+  is_empty (b_buf s) = false ->
+  (trigger_holds c s -> enabled s EvHandOff = true) /\
+  (c_flush_frequency c > 0 ->
+     enabled s EvHandOff = true \/
+     (enabled s EvTimer = true /\ enabled (fst (step c s EvTimer)) EvHandOff = true)).
+Proof. exact flush_enabled. Qed.
+Print Assumptions c16_flush_enabled.
+
+(* ---- the model functions equal the definitions regenerated from the sources (decgen golden coq/Gen/DecC16.v) ---- *)
+Theorem c16_tie_is_at_least : forall v o, Model.is_at_least v o = DecC16.is_at_least (vlist v) (vlist o).
+Proof. exact tie_is_at_least. Qed.
+Print Assumptions c16_tie_is_at_least.
+
+Theorem c16_tie_byte_size : forall ver m,
+  Model.byte_size ver m = DecC16.byte_size ver (m_headers m) (m_key m) (m_val m).
+Proof. exact tie_byte_size. Qed.
+Print Assumptions c16_tie_byte_size.
+
+Theorem c16_tie_empty : forall s, Model.is_empty s = DecC16.empty (s_count s).
+Proof. exact tie_empty. Qed.
+Print Assumptions c16_tie_empty.
+
+Theorem c16_tie_ready_to_flush : forall c s,
+  Model.ready_to_flush c s =
+  DecC16.ready_to_flush (s_bytes s) (s_count s) (c_flush_frequency c) (c_flush_bytes c) (c_flush_messages c).
+Proof. exact tie_ready_to_flush. Qed.
+Print Assumptions c16_tie_ready_to_flush.
+
+Theorem c16_tie_would_overflow : forall c s m,
+  Model.would_overflow c s m =
+  DecC16.would_overflow (s_bytes s) (s_count s) (is_some (part_bytes s m)) (part_bytes s m) (vlist (c_version c))
+    (c_max_request_size c) (c_max_message_bytes c) (c_max_messages c) (m_headers m) (m_key m) (m_val m).
+Proof. exact tie_would_overflow. Qed.
+Print Assumptions c16_tie_would_overflow.
+
+Theorem c16_tie_dispatcher_check : forall c m,
+  Model.dispatcher_check c m =
+  gen_verdict (DecC16.dispatch_check (vlist (c_version c)) (m_has_headers m) (c_max_message_bytes c)
+                 (m_headers m) (m_key m) (m_val m)).
+Proof. exact tie_dispatcher_check. Qed.
+Print Assumptions c16_tie_dispatcher_check.
